@@ -35,12 +35,21 @@ EXPECTED = {
         "x_hard = torch.zeros_like(logits, memory_format=torch.legacy_contiguous_format).scatter_(-1, index, 1.0)",
         "return x_hard - x.detach() + x",
     ],
+    # the noise of a 16-bit layer is drawn and added in float32 (on the reals: no effect)
+    "_noise_dtype": [
+        "return torch.float32 if logits.dtype in (torch.float16, torch.bfloat16) else logits.dtype",
+    ],
+    # sigmoid(z / tau) > threshold  <=>  z > tau * logit(threshold): the comparison is made before the sigmoid rounds
+    "_hard_cut": [
+        "if 0.0 < threshold < 1.0:\n    cut = tau * (math.log(threshold) - math.log1p(-threshold))\n    return (z > cut).float()",
+        "return (y_soft > threshold).float()",
+    ],
     # z = logits + Gumbel noise; soft = softmax(z / tau); hard = one_hot(argmax z) (straight through)
     "gumbel_softmax": [
         "_check_temperature(tau)",
-        "gumbels = -torch.empty_like(logits, memory_format=torch.legacy_contiguous_format).exponential_().log()",
-        "z = logits + gumbels",
-        "y_soft = _softmax_tau(z, tau)",
+        "gumbels = -torch.empty_like(logits, dtype=_noise_dtype(logits), memory_format=torch.legacy_contiguous_format).exponential_().log()",
+        "z = logits.to(gumbels.dtype) + gumbels",
+        "y_soft = _softmax_tau(z, tau).to(logits.dtype)",
         "if hard:\n    index = z.max(-1, keepdim=True)[1]\n    y_hard = torch.zeros_like(logits, memory_format=torch.legacy_contiguous_format).scatter_(-1, index, 1.0)\n    return y_hard - y_soft.detach() + y_soft",
         "return y_soft",
     ],
@@ -55,14 +64,14 @@ EXPECTED = {
         "x = (logits > 0).to(torch.float32) - x.detach() + x",
         "return x",
     ],
-    # logistic noise log U - log(1 - U); soft = sigmoid((logits + noise) / tau); hard: logits + noise > tau * logit(threshold)
+    # logistic noise log U - log(1 - U); z = logits + noise; soft = sigmoid(z / tau); hard: z > tau * logit(threshold)
     "gumbel_sigmoid": [
         "if not 0 < tau < math.inf:\n    raise ValueError('Temperature must be positive and finite')",
-        "U = torch.rand_like(logits)",
+        "U = torch.rand_like(logits, dtype=_noise_dtype(logits))",
         "logistic_noise = torch.log(U + 1e-20) - torch.log(1 - U + 1e-20)",
-        "y_soft = torch.sigmoid((logits + logistic_noise) / _representable_tau(tau, logits))",
-        "if hard:\n    if 0.0 < threshold < 1.0:\n        cut = tau * (math.log(threshold) - math.log1p(-threshold))\n        y_hard = (logits + logistic_noise > cut).float()\n"
-        "    else:\n        y_hard = (y_soft > threshold).float()\n    return (y_hard - y_soft).detach() + y_soft",
+        "z = logits.to(U.dtype) + logistic_noise",
+        "y_soft = torch.sigmoid(z / _representable_tau(tau, z)).to(logits.dtype)",
+        "if hard:\n    y_hard = _hard_cut(z, y_soft, tau, threshold)\n    return (y_hard - y_soft).detach() + y_soft",
         "return y_soft",
     ],
 }
